@@ -663,6 +663,8 @@ class Machine(Interp):
             return list(self.iterate(v))
         if isinstance(v, Opaque) and hasattr(v, "m_iter"):
             return self.to_list(v.m_iter(self))
+        if isinstance(v, Opaque) and "to_list" in self.spec.opaque_hooks:
+            return self.spec.opaque_hooks["to_list"](self, v)
         if isinstance(v, SymStream):
             hook = self.spec.opaque_hooks.get("materialize")
             if hook:
